@@ -18,7 +18,7 @@ EXPLANATION = (
     "population of the acquired sets up to 3 per key; z3 decides that it is positive exactly when neither limit is "
     "exhausted. (2) Schedules: the solver chooses a script of k steps over the currently enabled operations {start a "
     "connect() task for host A/B, let a pending connection attempt succeed / fail, release or close a held connection "
-    "(with or without letting the loop run before the next step), cancel a task, close the connector}; the real "
+    "(with or without letting the loop run before the next step), cancel a task, let 5 s pass while some connect() runs under ClientTimeout(connect=3), close the connector}; the real "
     "coroutines run on a deterministic loop with limit and limit_per_host solver-chosen. After every step: in-use plus "
     "in-progress connections within both limits, no task left waiting while a slot it could use is free, and at the end "
     "nothing counted as in use, every transport closed after close().")
@@ -67,7 +67,7 @@ def avail_lemma(ctx, maxpop=3):
     return f, "avail", (None if f is True else {"key": "available-connections-arithmetic"})
 
 
-def schedule(ctx, k=5, limits=None, first=()):
+def schedule(ctx, k=5, limits=None, first=(), with_timeouts=False):
     from aiohttp import ClientTimeout
     from aiohttp.client_proto import ResponseHandler
     from aiohttp.client_reqrep import ConnectionKey
@@ -119,6 +119,7 @@ def schedule(ctx, k=5, limits=None, first=()):
     held = []  # Connection objects obtained and not yet released
     trace = []
     closed = False
+    advanced = False
 
     def harvest():
         for rec in tasks:
@@ -163,6 +164,8 @@ def schedule(ctx, k=5, limits=None, first=()):
         if not closed:
             if len(tasks) < 4:
                 enabled += [("connect", "A"), ("connect", "B")]
+                if with_timeouts:
+                    enabled += [("connect_t", "A")]  # the same with ClientTimeout(connect=3)
                 if any(c is not None for c in held):
                     # started in the same loop iteration as a following release
                     enabled += [("connect_notick", "A")]
@@ -175,6 +178,8 @@ def schedule(ctx, k=5, limits=None, first=()):
             for j, rec in enumerate(tasks):
                 if not rec[0].done():
                     enabled.append(("cancel", j))
+            if with_timeouts and not advanced and any(rec[3] and not rec[0].done() for rec in tasks):
+                enabled.append(("advance", 5))
             enabled.append(("close",))
         if not enabled:
             break
@@ -183,10 +188,17 @@ def schedule(ctx, k=5, limits=None, first=()):
             break
         trace.append(list(op))
         tick = True
-        if op[0] in ("connect", "connect_notick"):
-            t = asyncio.Task(conn.connect(_Req(keys[op[1]]), [], tmo), loop=loop)
-            tasks.append([t, op[1], False])
-            tick = op[0] == "connect"
+        if op[0] in ("connect", "connect_notick", "connect_t"):
+            timed = op[0] == "connect_t"
+            t = asyncio.Task(conn.connect(_Req(keys[op[1]]), [], ClientTimeout(connect=3) if timed else tmo), loop=loop)
+            tasks.append([t, op[1], False, timed])
+            tick = op[0] != "connect_notick"
+        elif op[0] == "advance":
+            advanced = True
+            loop.advance(op[1])
+            for rec in tasks:
+                if rec[3] and not rec[0].done():
+                    return violation("connect-timeout-does-not-end-the-wait", i)
         elif op[0] == "create_ok":
             pending_creates[op[1]][0].set_result(True)
         elif op[0] == "create_fail":
@@ -282,6 +294,11 @@ def jobs(tier):
         for f1 in seconds:
             out.append(dict(name=f"sched-L{limits[0]}-H{limits[1]}-{'-'.join(map(str, f1))}", func="schedule",
                             params=dict(k=k, limits=list(limits), first=[["connect", "A"], f1]), limits=lim))
+    # waiting for a slot / for the connection attempt under ClientTimeout(connect=3)
+    for limits in ((1, 0), (1, 1)):
+        for f in ([["connect", "A"], ["connect_t", "A"]], [["connect_t", "A"], ["connect", "A"]], [["connect", "B"], ["connect_t", "A"]]):
+            out.append(dict(name=f"timeout-L{limits[0]}-H{limits[1]}-{f[0][0]}{f[0][1]}-{f[1][0]}{f[1][1]}", func="schedule",
+                            params=dict(k=k - 1, limits=list(limits), first=f, with_timeouts=True), limits=lim))
     return out
 
 
@@ -294,5 +311,5 @@ REQUIRED_OUTCOMES = ("avail", "drained", "closed")
 
 def bounds(tier):
     return {"lemma": "limit, limit_per_host symbolic in 0..1000; acquired population 0..3 for the key and 0..3 for another key",
-            "schedules": "k=6 (quick) / 8 steps, the first being connect(A) and the second each enabled operation (one job each); up to 4 connect tasks, 2 hosts, (limit, limit_per_host) in {1,2}x{0,1}; release with and without a loop tick before the next step",
+            "schedules": "k=6 (quick) / 8 steps, the first being connect(A) and the second each enabled operation (one job each); up to 4 connect tasks, 2 hosts, (limit, limit_per_host) in {1,2}x{0,1}; release with and without a loop tick before the next step; 6 jobs in which connect() may run under ClientTimeout(connect=3) and 5 s of virtual time may pass",
             "wind_down": "after the script every pending attempt succeeds and held connections are released one by one"}
